@@ -184,6 +184,106 @@ def run_part(prop, seed, budget):
             gg["CALLS"].clear()
             res = graphql.graphql_sync(sch, '{intBox{pick(among: ["a"])}}')
             if not res.errors or gg["CALLS"]: _fail(failures, "resolvers-of-a-specialised-generic-class", "invalid-argument-reached-the-resolver", errors=[str(e) for e in res.errors or []][:2], calls=repr(gg["CALLS"]))
+    if prop == "C08":
+        import json as _json, uuid
+        from typing import List, Optional, Any
+        from apischema import PassThroughOptions, serialization_default, serialization_method
+        # a dynamic conversion at a position decides the image there, whether or not the type is named in PassThroughOptions (serialization_default completes the rest)
+        psrc = ["from dataclasses import dataclass, field", "from typing import *", "from uuid import UUID", "from apischema.metadata import conversion", "",
+                "def uuid_hex(v: UUID) -> str: return v.hex", "def uuid_int(v: UUID) -> int: return v.int", "",
+                "@dataclass", f"class Res{i}:", "    id: UUID", "    owner: UUID = field(metadata=conversion(serialization=uuid_hex))",
+                "    parents: List[UUID] = field(default_factory=list, metadata=conversion(serialization=uuid_int))",
+                "    previous: Optional[UUID] = field(default=None, metadata=conversion(serialization=uuid_hex))", "",
+                "@dataclass", f"class Ev{i}:", "    name: str", "    payload: Any = None", "    maybe: Optional[Any] = None", "",
+                f"class EvNT{i}(NamedTuple):", "    name: str", "    payload: Any = None", ""]
+        pg = vars(build_module(psrc, f"corners8pt_{seed}"))
+        U1, U2, U3 = uuid.UUID("12345678-1234-5678-1234-567812345678"), uuid.UUID(int=255), uuid.UUID(int=2 ** 127 + 1)
+        Res = pg[f"Res{i}"]; res = Res(U1, U2, [U3, U2], U3)
+        completed = lambda v, **kw: _json.loads(_json.dumps(v, default=serialization_default(**kw)))
+        for tp, obj, kw in ((Res, res, {}), (List[Res], [res, Res(U2, U1)], {}), (uuid.UUID, U1, {"conversion": pg["uuid_hex"]}), (List[uuid.UUID], [U1, U2], {"conversion": pg["uuid_int"]})):
+            ref = _out(lambda: serialize(tp, obj, **kw))
+            for pi, pt in enumerate((PassThroughOptions(types={uuid.UUID}), PassThroughOptions(types=(uuid.UUID,), collections=True), PassThroughOptions(types=lambda t: t is uuid.UUID),
+                                     PassThroughOptions(types={uuid.UUID}, dataclasses=True, any=True))):
+                for no_copy, pre in itertools.product((True, False), (False, True)):
+                    n += 1; distinct.add(case_hash("c8-pt-dynamic", repr(tp), pi, no_copy, pre)); hist["pass-through-next-to-a-dynamic-conversion"] += 1
+                    got = _out(lambda: completed(serialization_method(tp, pass_through=pt, no_copy=no_copy, **kw)(obj) if pre else serialize(tp, obj, pass_through=pt, no_copy=no_copy, **kw)))
+                    if ref[0] != "ok" or got != ref: _fail(failures, "pass-through-next-to-a-dynamic-conversion", "crash:" + got[1].split(":")[0] if got[0] == "crash" else "pass-through-changes-the-result", type=repr(tp), options=pi, no_copy=no_copy, precomputed=pre, got=got, expected=ref)
+        # no_copy=False: a value of an Any position is a copy, in every kind of object (field-by-field and fast paths alike)
+        for tn in (f"Ev{i}", f"EvNT{i}"):
+            for key, val in (("payload", [1, [2]]), ("payload", {"a": [1]}), ("maybe", [1])):
+                if key == "maybe" and tn.startswith("EvNT"): continue
+                for override in (False, True):
+                    from apischema import settings as _st
+                    n += 1; distinct.add(case_hash("c8-any-copy", tn, key, repr(val), override)); hist["any-position-copied-without-no_copy"] += 1
+                    d = {"name": "n", key: val}; before = copy_ = _json.loads(_json.dumps(d))
+                    old_ = _st.deserialization.override_dataclass_constructors; _st.deserialization.override_dataclass_constructors = override
+                    try: r = _out(lambda: deserialize(pg[tn], d, no_copy=False))
+                    finally: _st.deserialization.override_dataclass_constructors = old_
+                    if r[0] != "ok": _fail(failures, "any-position-copied-without-no_copy", "crash:" + str(r[1]).split(":")[0], type=tn, datum=d); continue
+                    v = getattr(r[1], key)
+                    if v is d[key] or v != before[key] or d != before: _fail(failures, "any-position-copied-without-no_copy", "result-shares-a-container-with-the-input", type=tn, datum=d, override_dataclass_constructors=override)
+    if prop == "C15":
+        from apischema.fields import unset_fields
+        from apischema.dataclasses import replace
+        # exactly the set fields are emitted, aggregate fields (flattened / pattern / additional properties) included - the reference is fields_set, in plain Python
+        qsrc = ["from dataclasses import dataclass, field", "from typing import *", "from apischema.fields import with_fields_set", "from apischema.metadata import flatten, properties", "",
+                "@dataclass", f"class Paging{i}:", "    offset: int = 0", "    limit: int = 20", "",
+                "@with_fields_set", "@dataclass", f"class Query{i}:", "    text: str", "    lang: str = 'en'", f"    paging: Paging{i} = field(default_factory=Paging{i}, metadata=flatten)",
+                "    pats: Dict[str, int] = field(default_factory=dict, metadata=properties(pattern=r'^p_'))", "    extra: Dict[str, int] = field(default_factory=dict, metadata=properties)", ""]
+        qg = vars(build_module(qsrc, f"corners8fs_{seed}")); Q, Pg = qg[f"Query{i}"], qg[f"Paging{i}"]
+        def image(q, exclude_unset=True):
+            fs = fields_set(q); out = {}
+            for name in ("text", "lang"):
+                if not exclude_unset or name in fs: out[name] = getattr(q, name)
+            if not exclude_unset or "paging" in fs: out.update({"offset": q.paging.offset, "limit": q.paging.limit})
+            for name in ("pats", "extra"):
+                if not exclude_unset or name in fs: out.update(getattr(q, name))
+            return out
+        q1 = Q("foo"); q2 = Q("foo", paging=Pg(10, 5)); q2.extra = {"x": 1}; q3 = replace(q1, lang="fr"); q4 = deserialize(Q, {"text": "bar", "limit": 3, "y": 2, "p_a": 1}); q5 = deserialize(Q, {"text": "bar", "limit": 3, "y": 2}); unset_fields(q5, "paging", "extra")
+        q6 = Q("foo", pats={"p_z": 1})
+        for label, q in (("constructor", q1), ("constructor-and-assignment", q2), ("replace", q3), ("deserialized", q4), ("deserialized-then-unset", q5), ("pattern-field-given", q6)):
+            for eu in (True, False):
+                n += 1; distinct.add(case_hash("c8-fs-aggregate", label, eu)); hist["unset-aggregate-fields"] += 1
+                r = _out(lambda: serialize(Q, q, exclude_unset=eu)); want = image(q, eu)
+                if r != ("ok", want): _fail(failures, "unset-aggregate-fields", "crash:" + str(r[1]).split(":")[0] if r[0] == "crash" else "emitted-fields-differ-from-fields_set", how=label, exclude_unset=eu, fields_set=sorted(fields_set(q)), got=r, expected=want)
+    if prop == "C07":
+        import jsonschema
+        from apischema import settings as _st
+        # members ordered after / before a serialized method that has an alias of its own; every emitted key is declared, with and without an aliaser
+        msrc = ["from dataclasses import dataclass, field", "from typing import *", "from apischema import order, serialized", "",
+                "@dataclass", f"class Rect{i}:", "    width: int", "    height: int",
+                "    @serialized('surface')", "    def area(self) -> int: return self.width * self.height",
+                "    unit: str = field(default='m', metadata=order(after='area'))",
+                "    scale: int = field(default=1, metadata=order(before='area'))",
+                "    @serialized", "    @property", "    def perimeter(self) -> int: return 2 * (self.width + self.height)", "",
+                "@order({'label': order(after='checksum')})", "@dataclass", f"class Blob{i}:", "    payload: str",
+                "    @serialized(alias='crc')", "    def checksum(self) -> int: return sum(map(ord, self.payload)) % 251",
+                "    @serialized", "    def label(self) -> str: return self.payload.upper()", "",
+                f"class TDx{i}(TypedDict):", "    a: int", ""]
+        mg = vars(build_module(msrc, f"corners8ser_{seed}"))
+        for tn, v in ((f"Rect{i}", mg[f"Rect{i}"](2, 3)), (f"Blob{i}", mg[f"Blob{i}"]("ab"))):
+            for al in (None, str.upper, to_camel_case):
+                kw = {"aliaser": al} if al else {}
+                n += 1; distinct.add(case_hash("c8-aliased-method-order", tn, getattr(al, "__name__", None))); hist["members-ordered-around-an-aliased-method"] += 1
+                sc = _out(lambda: serialization_schema(mg[tn], **kw)); d = _out(lambda: serialize(mg[tn], v, **kw))
+                if sc[0] != "ok" or d[0] != "ok": _fail(failures, "members-ordered-around-an-aliased-method", "crash:" + str((sc if sc[0] != "ok" else d)[1]).split(":")[0], type=tn); continue
+                errs = [e.message for e in jsonschema.Draft202012Validator(sc[1]).iter_errors(d[1])]
+                if errs or list(sc[1].get("properties", {})) != list(d[1]):
+                    _fail(failures, "members-ordered-around-an-aliased-method", "serialized-data-rejected-by-the-schema" if errs else "declared-properties-differ-from-the-emitted-keys", type=tn, aliaser=getattr(al, "__name__", None), data=d[1], properties=list(sc[1].get("properties", {})), errors=errs[:2])
+        # the effective additional_properties (explicit argument, else the global setting) is the same for serialize and for the schema
+        TD = mg[f"TDx{i}"]; val = [{"a": 1, "zz": 2}]
+        from typing import List
+        for glob, expl in itertools.product((False, True), (None, False, True)):
+            n += 1; distinct.add(case_hash("c8-effective-ap", glob, expl)); hist["effective-additional-properties"] += 1
+            eff = glob if expl is None else expl
+            kw = {} if expl is None else {"additional_properties": expl}
+            old_ = _st.additional_properties; _st.additional_properties = glob
+            try: sc = _out(lambda: serialization_schema(List[TD], **kw)); d = _out(lambda: serialize(List[TD], val, **kw))
+            finally: _st.additional_properties = old_
+            if sc[0] != "ok" or d[0] != "ok": _fail(failures, "effective-additional-properties", "crash:" + str((sc if sc[0] != "ok" else d)[1]).split(":")[0], setting=glob, argument=expl); continue
+            errs = [e.message for e in jsonschema.Draft202012Validator(sc[1]).iter_errors(d[1])]
+            if errs or d[1] != ([{"a": 1, "zz": 2}] if eff else [{"a": 1}]):
+                _fail(failures, "effective-additional-properties", "serialized-data-rejected-by-the-schema" if errs else "additional-keys-not-following-the-effective-option", setting=glob, argument=expl, data=d[1], errors=errs[:2])
     if prop == "C04":
         # the image of a field is the image of its value under the same options, at any depth: every option of serialize reaches nested objects
         A, P = g("Address"), g("Person")
